@@ -75,4 +75,4 @@ Qed.
 
 Corollary parse_auto_sound : forall st e, good st e = true -> expr_kindb (ekind e) = true ->
   forall e', parse_auto (print st e) = Some e' -> e' = e.
-Proof. intros st e Hg Hk e' H. unfold parse_auto in H. eapply roundtrip_unique; eauto. Qed.
+Proof. intros st e Hg Hk e' H. exact (roundtrip_unique st e Hg Hk (4 + 2 * length (print st e)) e' H). Qed.
